@@ -1,12 +1,9 @@
 package main
 
 import (
-	"bufio"
-	"bytes"
 	"encoding/json"
 	"fmt"
 	"os"
-	"os/exec"
 	"path/filepath"
 	"sort"
 	"strconv"
@@ -19,50 +16,6 @@ type shardJob struct {
 	spec  HarnessSpec
 	shard int
 	n     int
-}
-
-func runOneShard(j shardJob, tier string, hardTimeout time.Duration) *ShardResult {
-	self, _ := os.Executable()
-	cmd := exec.Command(self, "shard", "--harness", j.spec.Func, "--tier", tier, "--shard", fmt.Sprintf("%d/%d", j.shard, j.n))
-	var out, errb bytes.Buffer
-	cmd.Stdout = &out
-	cmd.Stderr = &errb
-	cmd.Env = os.Environ()
-	if err := cmd.Start(); err != nil {
-		r := newShardResult(j.spec.Func, j.shard, j.n)
-		r.Error = err.Error()
-		return r
-	}
-	done := make(chan error, 1)
-	go func() { done <- cmd.Wait() }()
-	var werr error
-	select {
-	case werr = <-done:
-	case <-time.After(hardTimeout):
-		cmd.Process.Kill()
-		<-done
-		r := newShardResult(j.spec.Func, j.shard, j.n)
-		r.Error = "killed: hard timeout " + hardTimeout.String()
-		return r
-	}
-	sc := bufio.NewScanner(&out)
-	sc.Buffer(make([]byte, 1<<20), 1<<28)
-	for sc.Scan() {
-		line := sc.Text()
-		if strings.HasPrefix(line, "RESULT ") {
-			r := newShardResult(j.spec.Func, j.shard, j.n)
-			if err := json.Unmarshal([]byte(line[7:]), r); err == nil {
-				return r
-			}
-		}
-	}
-	r := newShardResult(j.spec.Func, j.shard, j.n)
-	tail := errb.String()
-	if len(tail) > 1500 {
-		tail = tail[len(tail)-1500:]
-	}
-	r.Error = fmt.Sprintf("shard produced no result (%v): %s", werr, tail)
-	return r
 }
 
 type harnessSummary struct {
@@ -154,6 +107,16 @@ func runCheck(args []string) int {
 			return hashDecisions([]int{seed, a})%97 < hashDecisions([]int{seed, b})%97
 		})
 	}
+	pkgSet := map[string]bool{}
+	var pkgDirs []string
+	for _, s := range specs {
+		if !pkgSet[s.Pkg] {
+			pkgSet[s.Pkg] = true
+			pkgDirs = append(pkgDirs, s.Pkg)
+		}
+	}
+	prog, ssaPkgs, loadSec := loadProgram(pkgDirs)
+	active := activeKnown()
 	results := make([]*ShardResult, len(work))
 	var wg sync.WaitGroup
 	sem := make(chan struct{}, jobs)
@@ -164,10 +127,11 @@ func runCheck(args []string) int {
 			sem <- struct{}{}
 			defer func() { <-sem }()
 			j := work[i]
-			results[i] = runOneShard(j, tier, time.Duration(j.spec.Timeout[ti]+90)*time.Second)
+			results[i] = exploreShard(prog, ssaPkgs[j.spec.Pkg], j.spec, ti, j.shard, j.n, active)
 		}(i)
 	}
 	wg.Wait()
+	exploreSec := time.Since(t0).Seconds() - loadSec
 
 	// ---- aggregate per harness
 	sums := map[string]*harnessSummary{}
@@ -423,6 +387,8 @@ func runCheck(args []string) int {
 			"discharged":                    totalDis,
 			"queries":                       totalQ,
 			"solver_time_s":                 totalSolver,
+			"load_and_ssa_build_s":          loadSec,
+			"exploration_wall_s":            exploreSec,
 			"solvers":                       solverNames(solverVersions),
 			"harnesses":                     hs,
 			"functions_encoded":             funcs,
